@@ -94,7 +94,6 @@ fn any_tracked(mincap: usize) -> (TLru, Abs) {
     }
     unsafe { DROPS = [0; IDS] };
     let l: TLru = RawLRU::verif_from_parts(a.cap, PoisonHasher, None, a.n, |i| (Tk(a.k[i]), Tv(a.v[i])));
-    assert!(l.verif_wf() && l.verif_abs() == a, "[builder] built state has the intended view");
     (l, a)
 }
 
@@ -255,7 +254,6 @@ fn borrowed_lookup_box_key() {
     // K = Box<u8> (heap-owning key), Q = u8: lookups through the borrowed form
     let a = any_abs(N, 1);
     let mut l: BoxLru = RawLRU::verif_from_parts(a.cap, PoisonHasher, None, a.n, |i| (Box::new(a.k[i]), a.v[i]));
-    assert!(l.verif_wf() && l.verif_abs() == a, "[builder] built state has the intended view");
     let q: u8 = kani::any();
     kani::cover!(a.has(q), "borrowed lookup: hit");
     kani::cover!(!a.has(q), "borrowed lookup: miss");
@@ -285,7 +283,6 @@ fn borrowed_lookup_unsized_q() {
     let a = any_abs(N, 1);
     let tag: u8 = kani::any();
     let mut l: ArrLru = RawLRU::verif_from_parts(a.cap, PoisonHasher, None, a.n, |i| ([a.k[i], tag], a.v[i]));
-    assert!(l.verif_wf() && l.verif_abs() == a, "[builder] built state has the intended view");
     let q0: u8 = kani::any();
     let q1: u8 = kani::any();
     let q: [u8; 2] = [q0, q1];
